@@ -33,6 +33,7 @@ def ground_decrypt(xml, enc_keys, limit=4):
     -> (xml after decryption, number decrypted, list of key labels that worked)"""
     n = 0
     used = []
+    stages = [xml]
     for _ in range(limit):
         progressed = False
         for k in enc_keys:
@@ -41,18 +42,19 @@ def ground_decrypt(xml, enc_keys, limit=4):
             except simxmlsec.ToolError:
                 continue
             xml = out
+            stages.append(xml)
             n += 1
             used.append("k%d" % k)
             progressed = True
             break
         if not progressed:
             break
-    return xml, n, used
+    return xml, n, used, stages
 
 
 def effective_view(xml, enc_keys):
     """The response as the receiving SP can see it after decrypting what its keys open."""
-    full, ndec, used = ground_decrypt(xml, enc_keys) if enc_keys else (xml, 0, [])
+    full, ndec, used, stages = ground_decrypt(xml, enc_keys) if enc_keys else (xml, 0, [], [xml])
     root = ET.fromstring(full)
     eff = []
     for a in root.findall(wire.q(wire.SAML, "Assertion")):
@@ -68,7 +70,7 @@ def effective_view(xml, enc_keys):
             eff.append(d)
         if ea.find(wire.q(wire.XENC, "EncryptedData")) is not None:
             undec += 1
-    return full, eff, undec, used
+    return full, eff, undec, used, stages
 
 
 def add(sim, rec, prop, rule, detail, kind="violation"):
@@ -200,7 +202,7 @@ def judge_resp(sim, ev, rec):
             add(sim, rec, "SANITY", "non-response-accepted", m["type"])
         return
     try:
-        full, eff, undec, dec_used = effective_view(xml, spec.get("enc_keys") or [])
+        full, eff, undec, dec_used, stages = effective_view(xml, spec.get("enc_keys") or [])
     except Exception as e:
         F["effective_error"] = type(e).__name__
         return
@@ -239,7 +241,15 @@ def judge_resp(sim, ev, rec):
             cands.add(asked["signing_key"])
         if emb and emb.startswith("k"):
             cands.add(emb)
-        valid_under = signature_truth(doc, node, ident, cands)
+        if what == "response":
+            valid_under = signature_truth(doc, node, ident, cands)
+        else:
+            # an assertion is signed before the layers inside it are opened and after the layers
+            # around it are: valid if it verifies at some stage of the decryption
+            vu = set()
+            for st in stages:
+                vu.update(signature_truth(st, node, ident, cands))
+            valid_under = sorted(vu)
         crypt_ok = bool(valid_under)
         trusted = bool(set(valid_under) & set(K or []))
         F["sigs"].append({"what": what, "valid_under": valid_under, "K": K, "embedded": emb, "enc": enc})
